@@ -52,6 +52,7 @@ class C05(props.BaseProp):
 
     def gen(self, seed, n):
         r = gv.SplitMix(seed * 1000003 + 5)
+        r2 = gv.SplitMix(seed * 7919 + 505)
         cases = []
         for i in range(n):
             directed = r.below(2) == 1
@@ -72,8 +73,11 @@ class C05(props.BaseProp):
                 nodes = names if r.below(2) else names[:r.below(4)]
                 edges = cg.gadget_tie_then_improve(r, names)
                 spec = (spec[0], 0, spec[2], 2, 0, 1)
-            cases.append({"id": "b%d" % i, "spec": spec, "nodes": nodes, "edges": edges,
-                          "weighted": weighted, "normalized": r.below(2) == 1, "withdef": nn <= 8})
+            c = {"id": "b%d" % i, "spec": spec, "nodes": nodes, "edges": edges,
+                 "weighted": weighted, "normalized": r.below(2) == 1, "withdef": nn <= 8}
+            if weighted and not big:
+                cg.weight_variant(r2, c)
+            cases.append(c)
         return cases
 
     def to_harness(self, c):
@@ -86,7 +90,8 @@ class C05(props.BaseProp):
 
     def case_json(self, c):
         return {"id": c["id"], "spec": list(c["spec"]), "nodes": c["nodes"], "edges": [list(e) for e in c["edges"]],
-                "weighted": bool(c["weighted"]), "normalized": bool(c["normalized"]), "withdef": bool(c["withdef"])}
+                "weighted": bool(c["weighted"]), "normalized": bool(c["normalized"]), "withdef": bool(c["withdef"]),
+                "wscale": c.get("wscale", 0)}
 
     def case_from_json(self, j):
         c = cg.graph_from_json(j)
@@ -171,3 +176,4 @@ P.manifest = {
                  "(incl. per-case evaluation of the executable definition) + independent definitional oracle on the "
                  "implementation",
 }
+P.rule += ' WEIGHT VARIANTS (separate PRNG stream): 20% of the weighted cases are run with a dyadic weight scale applied inside the harness (all weights x 2^k on input, weight-valued observations / 2^k on output, k in {-60, -3, 40}; exact in binary64, so the observations must equal those of the unscaled integers the model and the oracle use): path-length differences far below f64::EPSILON, all weights below 1, large magnitudes; a further 8% use weights 2^24 + {1,2,3} (exact in binary64, not representable in binary32).'
